@@ -11,6 +11,7 @@ from props.base import Context  # noqa: F401
 
 PID = 'C05'
 TIE_MODULES = ['DiffxVerif.Tie.Dom', 'DiffxVerif.Tie.Sections']
+NEEDS = ['sections', 'options', 'text', 'dom']
 ASSUMPTIONS = [
     'trees are built through the public constructors / options dictionaries / typed content attributes (harness/domadapt.build)',
     'the documented normalisation is re-implemented independently in normalise() below',
